@@ -473,6 +473,49 @@ def positionTokenLinkOk (s : AccSpec) : Bool :=
      t.attrs.any (fun a => a.1 == "constraint" && a.2.1 == "position_token_account.amount == 1"))
   | _, _ => true
 
+/-- an account slot that the instruction itself creates (Anchor `init`, or a fresh keypair that signs) -/
+def created (f : AccField) : Bool := f.kind == "Signer" || f.attrs.any (fun a => a.1 == "init")
+
+def hasAttr (f : AccField) (kw ex : String) : Bool := f.attrs.any fun a => a.1 == kw && a.2.1 == ex
+
+/-- `b` appears together with `a` only created, or tied to it by one of the listed attributes -/
+def linkOk (a b : String) (ties : List (String × String)) (s : AccSpec) : Bool :=
+  match findField s a, findField s b with
+  | some _, some f => created f || ties.any fun t => hasAttr f t.1 t.2
+  | _, _ => true
+
+/-- the generic back-reference rules, over EVERY regenerated accounts struct:
+    a pool's token vaults and reward vaults by address; fee tiers, adaptive fee tiers, config extensions, token
+    badges and pools by `has_one` to the config they are used with; the oracle by `has_one` or by its seeds; a
+    bundle's token account by mint and amount; a bundled position by seeds over the bundle's mint -/
+def backRefsOk (s : AccSpec) : Bool :=
+  linkOk "whirlpool" "token_vault_a" [("address", "whirlpool.token_vault_a"), ("constraint", "token_vault_a.key() == whirlpool.token_vault_a")] s &&
+  linkOk "whirlpool" "token_vault_b" [("address", "whirlpool.token_vault_b"), ("constraint", "token_vault_b.key() == whirlpool.token_vault_b")] s &&
+  linkOk "whirlpool" "reward_vault" [("address", "whirlpool.reward_infos[reward_index as usize].vault")] s &&
+  linkOk "whirlpools_config" "fee_tier" [("has_one", "whirlpools_config")] s &&
+  linkOk "whirlpools_config" "adaptive_fee_tier" [("has_one", "whirlpools_config")] s &&
+  linkOk "whirlpools_config" "whirlpools_config_extension" [("has_one", "whirlpools_config")] s &&
+  linkOk "whirlpools_config" "token_badge" [("has_one", "whirlpools_config")] s &&
+  linkOk "whirlpools_config" "whirlpool" [("has_one", "whirlpools_config")] s &&
+  linkOk "whirlpool" "oracle" [("has_one", "whirlpool"), ("seeds", "[b\"oracle\", whirlpool.key().as_ref()]")] s &&
+  linkOk "position_bundle" "bundled_position"
+    [("seeds", "[ b\"bundled_position\".as_ref(), position_bundle.position_bundle_mint.key().as_ref(), bundle_index.to_string().as_bytes() ]")] s &&
+  (match findField s "position_bundle", findField s "position_bundle_token_account" with
+   | some _, some f =>
+     created f || (hasAttr f "constraint" "position_bundle_token_account.mint == position_bundle.position_bundle_mint" &&
+                   hasAttr f "constraint" "position_bundle_token_account.amount == 1")
+   | _, _ => true)
+
+theorem back_references_everywhere : anchorSpecs.all backRefsOk = true := by decide +kernel
+
+-- non-vacuity: how many structs each rule speaks about
+example : ((anchorSpecs.filter fun s => (findField s "whirlpool").isSome && (findField s "token_vault_a").isSome).length,
+           (anchorSpecs.filter fun s => (findField s "whirlpool").isSome && (findField s "reward_vault").isSome).length,
+           (anchorSpecs.filter fun s => (findField s "whirlpools_config").isSome && (findField s "whirlpool").isSome).length,
+           (anchorSpecs.filter fun s => (findField s "whirlpool").isSome && (findField s "oracle").isSome).length,
+           (anchorSpecs.filter fun s => (findField s "position_bundle").isSome && (findField s "position_bundle_token_account").isSome).length)
+    = (12, 6, 9, 4, 5) := by decide +kernel
+
 theorem position_links_everywhere : anchorSpecs.all positionLinkOk = true := by decide +kernel
 theorem position_token_links_everywhere : anchorSpecs.all positionTokenLinkOk = true := by decide +kernel
 
